@@ -40,6 +40,25 @@ KEY_FILES = {'building.py', 'history.py', 'signatures.py', 'reraised_exception.p
 WATCH = KEY_FILES if common.tier() == 'quick' else None
 
 
+def _build_guard_holder():
+  """The object holding fdl.build's re-entrancy flag (a private of building.py; found by shape, so that a
+  harmless rename of the module-level variable does not break the observation)."""
+  st = getattr(building, '_state', None)
+  if st is not None and hasattr(st, 'in_build'):
+    return st
+  for v in vars(building).values():
+    if isinstance(v, threading.local) and hasattr(v, 'in_build'):
+      return v
+  raise common.MachineryError('cannot find the build guard flag of fiddle._src.building')
+
+
+_GUARD = _build_guard_holder()
+
+
+def _in_build():
+  return bool(_GUARD.in_build)
+
+
 class CustomErr(Exception):
   pass
 
@@ -67,8 +86,8 @@ class Sched:
 
   # ---- called from worker threads
   def _observe(self, i):
-    g = 2 if building._state.in_build else 1            # thread-local reads of *this* thread
-    t = 2 if history._tracking_state.enabled else 1
+    g = 2 if _in_build() else 1            # thread-local reads of *this* thread
+    t = 2 if history.tracking_enabled() else 1
     r = self.region[i]
     if r not in self.obs[i]:
       self.obs[i][r] = [0, 0]
